@@ -18,6 +18,9 @@ func (p *Program) shadowName(i int) string {
 	return ShadowNames[(p.nameOffset()+i)%len(ShadowNames)]
 }
 
+// ShadowName is exported for messages.
+func (p *Program) ShadowName(i int) string { return p.shadowName(i) }
+
 func (p *Program) nameOffset() int {
 	h := 0
 	for _, c := range p.Name {
@@ -361,8 +364,20 @@ func (pr *printer) fnParts(f *Fn, c *Coll) (params, results, body string) {
 		xexpr = "rt.Find(" + strings.Join(append([]string{ctxArg}, args...), ", ") + ")"
 	}
 	call := fmt.Sprintf("%s.Call(%s)", xexpr, strings.Join(append([]string{ctxArg, fmt.Sprint(f.ID)}, args...), ", "))
+	// A function literal given to the directive may use any variable of the
+	// enclosing function - also one named like an identifier of the generated
+	// code. In Shadow programs every literal reads the first such variable and
+	// reports what it saw.
+	seen := ""
+	if (f.Spell == SpLit || f.Spell == SpVar) && p.Shadow && !p.Bare && p.Flow != nil && len(p.Flow.Params) > 0 && f.ID < PoisonFn {
+		if name := p.shadowName(0); name != "ctx" || !f.Ctx {
+			seen = fmt.Sprintf("\tx.Seen(%d, unT%d(%s))\n", f.ID, p.Flow.Params[0], name)
+		}
+	}
 	if len(rets) == 0 {
-		body = "\t" + call + "\n"
+		body = seen + "\t" + call + "\n"
+	} else if seen != "" {
+		body = seen + "\tr := " + call + "\n\treturn " + strings.Join(rets, ", ") + "\n"
 	} else {
 		body = "\tr := " + call + "\n\treturn " + strings.Join(rets, ", ") + "\n"
 	}
